@@ -88,6 +88,16 @@ class It:
         self.pending = pending  # V term of the exception raised after exhaustion (VNone if none) or None
 
 
+class Mt:
+    """result of Pattern.match(q, pos): r = length of the match, -1 for no match (assumed contract of the re module:
+    the matched text is q[pos:pos+r], so 0 <= r <= len(q) - pos)"""
+
+    __slots__ = ("r", "q", "pos")
+
+    def __init__(self, r, q, pos):
+        self.r, self.q, self.pos = r, q, pos
+
+
 class SuperProxy:
     __slots__ = ("recv", "after")
 
